@@ -321,4 +321,16 @@ def eq_texts(a, b):
     return True, ""
 
 
-PROP = C09()
+from srccall import with_src  # noqa: E402
+
+# translated source: the string-form functions of markers.py are proved equal to the model functions the theorems are about
+# (Mk.fmtL / normalizeExtra / str / eq / hashKey); what `hash` is applied to stays visible (PyRt.hash_sym)
+PROP = with_src(C09(), share=10, functions=["_format_marker", "_normalize_extra_values", "Marker.__str__", "Marker.__eq__", "Marker.__hash__",
+                                             "Marker.__init__"],
+                module=["PkgProofs.Props.Src.MarkerFmt", "PkgProofs.Props.Src.MarkerInit"],
+                theorems=["Src.Marker.__init___translated", "Src.Marker.__init___eq_model", "Src.parse_marker_eq_model'",
+                          "Src._format_marker_translated", "Src._format_marker_eq_model",
+                          "Src._normalize_extra_values_translated", "Src._normalize_extra_values_eq_model",
+                          "Src.Marker.__str___translated", "Src.Marker.__str___eq_model",
+                          "Src.Marker.__eq___translated", "Src.Marker.__eq___eq_model", "Src.Marker.__eq___not_marker",
+                          "Src.Marker.__hash___translated", "Src.Marker.__hash___eq_model"])
